@@ -237,6 +237,11 @@ fn real2<C: CellType>(code: &str, input: &[u8], budget: Option<usize>, refuse_at
 
 fn one<C: CellType>(code: &str, t: &mut [Tally; 3], w: &str) {
     let bytes = code.as_bytes();
+    if code.len() < 40 {
+        println!("N7CASE {} program {:?}", w, code);
+    } else {
+        println!("N7CASE {} program of {} bytes starting {:?}", w, code.len(), &code[..20]);
+    }
     for input in [&[][..], &[3u8, 0, 255, 1][..]] {
         let (cev, halted, cview) = canon(bytes, input, C::BITS, 300_000, usize::MAX, false);
         if halted {
